@@ -120,7 +120,7 @@ var c13InvalB = []struct {
 func C13(rep *ev.Reporter, tier string) {
 	bud := NewBudget(150 * time.Second)
 	maxCycle := uint64(8)
-	n3 := 12
+	n3 := 40
 	maxRules := 3
 	if tier == "thorough" {
 		bud = NewBudget(9 * time.Minute)
